@@ -301,10 +301,40 @@ class Parser:
             return unary(self.sx, "-", self.unary())
         return self.primary()
 
+    def index_suffix(self, v):
+        """name(i)  /  name(hi downto lo)  on an array value (declared `downto 0`, the only order CoHDL declares)"""
+        while self.peek().kind == "op" and self.peek().value == "(":
+            if v.kind not in ARRAY:
+                raise TypeError_(f"indexing a {v.kind}")
+            self.next()
+            hi = self.expr()
+            if hi.kind != "integer":
+                raise TypeError_("index is not an integer")
+            t = self.peek()
+            if t.kind == "id" and t.value.lower() in ("downto", "to"):
+                self.next()
+                if t.value.lower() == "to":
+                    raise TypeError_("ascending slice of a descending vector (null or illegal range)")
+                lo = self.expr()
+                self.expect("op", ")")
+                if lo.kind != "integer":
+                    raise TypeError_("slice bound is not an integer")
+                ok = sym.And(lo.val >= 0, hi.val >= lo.val, hi.val < v.width)
+                if not self.sx.branch(ok):
+                    raise TypeError_("slice bounds outside the vector")
+                w = sym.to_int(hi.val) - sym.to_int(lo.val) + 1
+                v = VVal(v.kind, w, sym.pymod(sym.pydiv(v.bits, P2(lo.val)), P2(w)))
+            else:
+                self.expect("op", ")")
+                if not self.sx.branch(sym.And(hi.val >= 0, hi.val < v.width)):
+                    raise TypeError_("index outside the vector")
+                v = VVal("std_logic", 1, sym.bit_at(v.bits, hi.val))
+        return v
+
     def primary(self):
         t = self.next()
         if t.kind == "operand":
-            return self.operands[t.value]
+            return self.index_suffix(self.operands[t.value])
         if t.kind == "int":
             return VVal("integer", val=t.value)
         if t.kind == "bool":
